@@ -27,6 +27,23 @@ theorem C06_request_recorded_at_deadline (cfg : Cfg) (l : Led) (h : Nat) (s : St
   simp [h1, h2, h3, hok, IType.isRequest, hopen]
   omega
 
+/-- … and so is a request between two BitXHubs whatever it carries in its Group field (it is begun one-to-one): since the `fix:`
+commit "a request between two BitXHubs that carries a Group times out like any other"; before, the executor left it to the group
+bookkeeping of the transaction manager, which never heard of it, and it never timed out -/
+theorem C06_interhub_request_with_group_recorded (cfg : Cfg) (l : Led) (h : Nat) (s : String) (f t : SvcId) (idx : Nat)
+    (T : Int) (g : List (SvcId × Nat)) (p : ProofKind) (rc : Rcpt)
+    (hok : rc.ok = true) (hnb : rc.ret ≠ "batch_ibtp") (hnf : rc.txStatus ≠ 1) (hdst : t.chain ≠ cfg.bxh) (hhub : f.bxh ≠ t.bxh)
+    (hT : 0 < T) (hov : T.toNat < maxU64 - h)
+    (hopen : finalInterRecord l { frm := f, to := t, index := idx } = none) :
+    timeoutAct cfg l h (.ibtp s { plainReq f t idx T with group := some g } p) rc = .add (h + T.toNat) { frm := f, to := t, index := idx } := by
+  unfold timeoutAct plainReq
+  have h1 : (t.chain == cfg.bxh) = false := by simpa using hdst
+  have h2 : (rc.ret == "batch_ibtp") = false := by simpa using hnb
+  have h3 : (rc.txStatus == 1) = false := by simpa using hnf
+  have h4 : (f.bxh == t.bxh) = false := by simpa using hhub
+  simp [h1, h2, h3, h4, hok, IType.isRequest, hopen]
+  omega
+
 /-- the hypothesis `hopen` above holds for every transaction inside one hub, and between two hubs as long as the record is not final -/
 theorem finalInterRecord_none_of_local (l : Led) (id : TxId) (h : id.frm.bxh = id.to.bxh) : finalInterRecord l id = none := by
   simp [finalInterRecord, h]
